@@ -5,19 +5,6 @@ package httpprot
 // Contracts used by callers in other packages (C04 ...). Comment-only file.
 
 /*@
-ufunc realIPOf(r *Request) string
-ufunc headerOf(r *Request) int
-
-func (r *Request) RealIP() (ip string)
-  trusted
-  pure
-  ensures ip == realIPOf(r)
-
-func (r *Request) HTTPHeader() (h http.Header)
-  trusted
-  pure
-  ensures ref(h) == headerOf(r)
-
 // ---- C07: body limits ----
 pred effLimit(max int) := max == 0 ? 4194304 : max
 pred bodyOf(r *Request) := ifaceVal(r.Request.Body)
